@@ -11,6 +11,7 @@ fn main() {
         let code = match std::env::var("NQV_CHILD").as_deref() {
             Ok("loader-text") => nqverif::c08::child_loader_text(),
             Ok("c19") => nqverif::c19::child(),
+            Ok("c12-loader") => nqverif::c12::child_loader(),
             Ok("c03-generate") => nqverif::c03::child_generate(),
             other => {
                 eprintln!("MACHINERY unknown child mode {other:?}");
@@ -67,7 +68,9 @@ fn main() {
             "C09" => nqverif::c09::replay(case),
             "C10" => nqverif::c10::replay(case),
             "C11" => nqverif::c11::replay(case),
+            "C12" => nqverif::c12::replay(case),
             "C13" => nqverif::c13::replay(case),
+            "C14" => nqverif::c14::replay(case),
             "C19" => nqverif::c19::replay(case),
             _ => {
                 println!("{}", serde_json::to_string_pretty(case).unwrap());
@@ -88,7 +91,9 @@ fn main() {
         "C09" => nqverif::c09::run(&args),
         "C10" => nqverif::c10::run(&args),
         "C11" => nqverif::c11::run(&args),
+        "C12" => nqverif::c12::run(&args),
         "C13" => nqverif::c13::run(&args),
+        "C14" => nqverif::c14::run(&args),
         "C19" => nqverif::c19::run(&args),
         _ => {
             eprintln!("MACHINERY unknown property {prop}");
